@@ -6,7 +6,13 @@
    the code.  The Wishbone word is ONE byte wide (sel = one bit), the native word has R lanes; base address 0.
    Inputs  i = [cyc, stb, we, a, sel, d, last (cti # 2), cmd_ready, wdata_ready, rdata_valid, rdata (R lanes)].
    Outputs o = [ack, dat_r, cv, cwe, ca, clast (port.cmd), wv, wd, ww (port.wdata), rr (port.rdata.ready)].
-   BUG selects a seeded defect for the negative controls ("none" = the code as read). *)
+   BUG selects a seeded defect for the negative controls ("none" = the code as read): "stale_cache" (a write does not
+   invalidate the read cache), "ignore_aborted", "cache_hit_lane" (a cache hit returns the lane of the read that filled
+   the cache), "ack_without_merge" (a write that cannot be merged is acknowledged anyway, i.e. lost).
+   Note (found by TLC): the lane-occupied term of wr_can_merge, the "drain pending write before a read" branch and the flush
+   on the last beat cannot be told apart from their absence by ANY legal master (a CTI=010 burst never revisits a lane,
+   and leaving a burst needs CYC low, which flushes), nor can clearing wr_data / wr_we after the flush (the first merge
+   overwrites them) -- seeded removals of those are satisfied by R_WbMem. *)
 EXTENDS Integers, Sequences, FiniteSets
 
 RECURSIVE DwOr(_, _, _)
@@ -21,9 +27,9 @@ BInit(R) == [fsm |-> "CMD", aborted |-> 0,
 
 DwWide(R, i) == i.a \div R
 DwChunk(R, i) == i.a % R
-DwCanMerge(R, r, i, BUG) == r.wr_valid = 0 \/ (r.wr_addr = DwWide(R, i) /\ (BUG = "merge_occupied" \/ r.wr_sel[DwChunk(R, i) + 1] = 0))
+DwCanMerge(R, r, i, BUG) == r.wr_valid = 0 \/ (r.wr_addr = DwWide(R, i) /\ r.wr_sel[DwChunk(R, i) + 1] = 0)
 DwNextSel(R, r, i) == [r.wr_sel EXCEPT ![DwChunk(R, i) + 1] = 1]
-DwFlush(R, r, i, BUG) == (i.last = 1 /\ BUG # "no_flush_on_last") \/ (\A k \in 1..R : DwNextSel(R, r, i)[k] = 1)
+DwFlush(R, r, i, BUG) == i.last = 1 \/ (\A k \in 1..R : DwNextSel(R, r, i)[k] = 1)
 DwHit(R, r, i) == r.rc_valid = 1 /\ r.rc_addr = DwWide(R, i)
 
 DwNoOut(R) == [ack |-> 0, dat_r |-> 0, cv |-> 0, cwe |-> 0, ca |-> 0, clast |-> 0, wv |-> 0, wd |-> DwZero(R), ww |-> DwZero(R), rr |-> 0]
@@ -32,8 +38,9 @@ BComb(R, r, i, BUG) ==
   LET z == DwNoOut(R) IN
   CASE r.fsm = "CMD" ->
          IF i.cyc = 1 /\ i.stb = 1 THEN
-            IF i.we = 1 THEN [z EXCEPT !.ack = IF DwCanMerge(R, r, i, BUG) THEN 1 ELSE 0]
-            ELSE IF r.wr_valid = 0 /\ DwHit(R, r, i) THEN [z EXCEPT !.ack = 1, !.dat_r = r.rc_data[DwChunk(R, i) + 1]]
+            IF i.we = 1 THEN [z EXCEPT !.ack = IF DwCanMerge(R, r, i, BUG) \/ BUG = "ack_without_merge" THEN 1 ELSE 0]
+            ELSE IF r.wr_valid = 0 /\ DwHit(R, r, i)
+                 THEN [z EXCEPT !.ack = 1, !.dat_r = r.rc_data[(IF BUG = "cache_hit_lane" THEN r.rd_chunk ELSE DwChunk(R, i)) + 1]]
             ELSE z
          ELSE z
     [] r.fsm = "WRITE_CMD" ->
@@ -67,7 +74,7 @@ BNext(R, r, i, BUG) ==
                              !.wr_last = i.last,
                              !.fsm = IF DwFlush(R, r, i, BUG) THEN "WRITE_CMD" ELSE "CMD"]
                ELSE [r1 EXCEPT !.wr_last = 1, !.fsm = "WRITE_CMD"]
-            ELSE IF r.wr_valid = 1 /\ BUG # "read_bypasses_pending_write" THEN [r0 EXCEPT !.wr_last = 1, !.fsm = "WRITE_CMD"]
+            ELSE IF r.wr_valid = 1 THEN [r0 EXCEPT !.wr_last = 1, !.fsm = "WRITE_CMD"]
             ELSE IF DwHit(R, r, i) THEN (IF i.last = 1 THEN [r0 EXCEPT !.rc_valid = 0] ELSE r0)
             ELSE [r0 EXCEPT !.rd_addr = DwWide(R, i), !.rd_chunk = DwChunk(R, i), !.rd_last = i.last, !.fsm = "READ_CMD"]
          ELSE r0
